@@ -96,7 +96,8 @@ Record Inv (s : lstate) : Prop := {
             end;
   iv_req_nodup : NoDup (req_peers (evlog s));
   iv_resp_sub : forall p, In p (resp_queried (evlog s) ++ resp_failed (evlog s)) -> In p (req_peers (evlog s));
-  iv_resp_nodup : NoDup (resp_queried (evlog s) ++ resp_failed (evlog s)) }.
+  iv_resp_nodup : NoDup (resp_queried (evlog s) ++ resp_failed (evlog s));
+  iv_seed : exists rest, evlog s = EvResp self seeds [] [] :: rest }.
 
 (* ---- updateState on the update of an in-flight peer ------------------------------------ *)
 Lemma update_of_shape p :
@@ -194,6 +195,7 @@ Proof.
     + rewrite resp_queried_app, resp_failed_app. cbn [resp_queried resp_failed flat_map]. rewrite !app_nil_r, <- app_assoc. simpl.
       apply NoDup_insert_mid; [apply (iv_resp_nodup _ I)|].
       apply (iv_waiting _ I) in W. rewrite in_app_iff. tauto.
+    + destruct (iv_seed _ I) as [rest ->]. eexists. reflexivity.
   - (* failure: p becomes Unreachable *)
     destruct (leave_waiting_ok l1 p Unreachable A Pself W1) as (l2 & E2 & Eq2 & Ids2 & St2).
     rewrite E2. cbn [bind].
@@ -250,6 +252,7 @@ Proof.
     + rewrite resp_queried_app, resp_failed_app. cbn [resp_queried resp_failed flat_map]. rewrite !app_nil_r, app_assoc.
       apply NoDup_snoc_local; [apply (iv_resp_nodup _ I)|].
       apply (iv_waiting _ I) in W. rewrite in_app_iff. tauto.
+    + destruct (iv_seed _ I) as [rest ->]. eexists. reflexivity.
 Qed.
 
 (* ---- the seed update ------------------------------------------------------------------------ *)
@@ -282,6 +285,7 @@ Proof.
     + constructor.
     + intros q [].
     + constructor.
+    + exists []. reflexivity.
   - cbn [ps]. rewrite (F Waiting); [reflexivity|discriminate].
 Qed.
 
@@ -308,6 +312,7 @@ Proof.
     + intro q. rewrite req_peers_app, resp_queried_app, resp_failed_app. cbn [req_peers resp_queried resp_failed flat_map].
       rewrite !app_nil_r. apply (iv_resp_sub _ I).
     + rewrite resp_queried_app, resp_failed_app. cbn [resp_queried resp_failed flat_map]. rewrite !app_nil_r. apply (iv_resp_nodup _ I).
+    + destruct (iv_seed _ I) as [rest ->]. eexists. reflexivity.
 Qed.
 
 (* ---- spawnQuery ------------------------------------------------------------------------------------ *)
@@ -354,6 +359,7 @@ Proof.
   - intro q. rewrite req_peers_app, resp_queried_app, resp_failed_app. cbn [req_peers resp_queried resp_failed flat_map].
     rewrite !app_nil_r. intro X. apply in_app_iff. left. apply (iv_resp_sub _ I). exact X.
   - rewrite resp_queried_app, resp_failed_app. cbn [resp_queried resp_failed flat_map]. rewrite !app_nil_r. apply (iv_resp_nodup _ I).
+  - destruct (iv_seed _ I) as [rest ->]. eexists. reflexivity.
 Qed.
 
 Lemma spawn_all_inv cause l : forall s, Inv s -> term s = None -> NoDup l ->
